@@ -36,8 +36,12 @@ def build_plan(choice: Choice, tier):
             ops.append(["iter_all"])
         else:
             for _ in range(1 + d(6, "script.len")):
-                k = d(6, "op")
-                if k <= 3 or p["kind"] == "MapAccessFile":
+                k = d(8, "op")
+                if k == 6:
+                    ops.append(["open"])            # documented no-op on an opened object (e.g. `with f:` in a worker)
+                elif k == 7:
+                    ops.append(["close_open"])      # the process closes its handle and opens the file again
+                elif k <= 3 or p["kind"] == "MapAccessFile":
                     ops.append(["get", d(n, "get.i")])
                 elif k == 4:
                     a = d(n, "slice.a")
@@ -104,6 +108,13 @@ def execute(plan, choice, tmpdir, trace):
             return ["slice", op[1], op[2], obj[op[1]:op[2]]]
         if op[0] == "iter_all":
             return ["iter_all", list(obj)]
+        if op[0] == "open":
+            obj.open()
+            return ["noop"]
+        if op[0] == "close_open":
+            obj.close()
+            obj.open()
+            return ["noop"]
         raise ValueError(op)
 
     def actor_main(actor: Actor, obj):
